@@ -268,6 +268,30 @@ def _repin(run: Run, prog: Program, model: Model, tier: str) -> None:
     run.floor("RE-PIN", 20)
 
 
+def _prevalidation_total(run: Run, prog: Program, model: Model, tier: str) -> None:
+    """The substitution paths summarise `schema.__accept__(self._validator, value=value)` by the validator's contract
+    (total: returns a result for every value - C08).  That contract is re-derived here for the validator the substitutor
+    actually runs, because an exception escaping from it escapes from substitute() as something else than
+    SubstitutionError."""
+    from ..report import HOLDS, UNDECIDED, VIOLATED
+    from . import c08
+    sub = Run("C08", tier)
+    c08.total_obligations(sub, prog, model, tier, ("SubstitutorValidator",))
+    n = 0
+    for o in sub.obs:
+        if not o.rule.endswith(".TOTAL"):
+            continue
+        n += 1
+        if o.status == VIOLATED:
+            run.violated("PRE-VALIDATION-TOTAL", o.construct, o.site, o.detail + " - it escapes from substitute()",
+                         witness="substitute(schema, value) raises something else than SubstitutionError")
+        elif o.status == UNDECIDED:
+            run.undecided("PRE-VALIDATION-TOTAL", o.construct, o.site, o.detail)
+        elif o.status == HOLDS:
+            run.holds("PRE-VALIDATION-TOTAL", o.construct, o.site, o.detail, nontrivial=o.nontrivial)
+    run.floor("PRE-VALIDATION-TOTAL", 60)
+
+
 def check(run: Run, prog: Program, model: Model, tier: str) -> None:
     run.explanation = (
         "Every path of every Substitutor.visit_* (and of _substitute_elements / _from_native inlined into them) is "
@@ -280,7 +304,10 @@ def check(run: Run, prog: Program, model: Model, tier: str) -> None:
         "return. substitute(substitute(S, v), v) == substitute(S, v) is not decided."
         " The validator the substitutor runs rejects exactly the relation each length prop means (guarded by `is Nil`), and the conversion path is free of equality-keyed memoisation.")
     run.explanation += " RESULT-DECLARABLE: Substitutor.visit_list / visit_dict are run on values of concrete shape with `...` placeholders (pre-validation of the schema itself executed, member verdicts left open) and every returned element list / key table is handed back to the declaration's __call__: it must be accepted. RE-PIN: the stored payload and the same value symbol are given to the validator the substitutor runs; a value-mismatch path must compare the value with itself. NATIVE-CONTRACT: C14's ARM/FINAL obligations re-derived."
+    run.explanation += ' PRE-VALIDATION-TOTAL: C08.TOTAL re-derived for SubstitutorValidator. RESULT-DECLARABLE also compares the stored key table with the one the declaration stores for it (optional(...) objects as keys of the value).'
     run.rule_text = ("obligations per (visit method, prop-set/shape); non-trivial = paths with partial operations, handlers or markers")
+    from ..entry import entry_transparent
+    entry_transparent(run, prog, model, "substitute", "SUBSTITUTE-ENTRY")
     run.trusted += ["visitor contracts of DESIGN appendix B", "partial-operation table"]
     run.assumptions += ["NotImplementedError from Substitutor.visit for hook-less foreign schema classes is outside visit_* and exempt"]
     unroll = 1 if tier == "quick" else 2
@@ -373,7 +400,7 @@ def check(run: Run, prog: Program, model: Model, tier: str) -> None:
     # substitution of the same value - depends on what was converted before (idempotence clause, necessary condition)
     from .c14 import _memo, native_contract
     native_contract(run, prog, model, tier, "substituting the same value into the result again is then refused (idempotence), "
-                    "or the result accepts nothing the value conforms to")
+                    "or the result accepts nothing the value conforms to", rules=("ARM", "FINAL", "ONLY-VALUEERROR"))
     sub = model.visitors["Substitutor"]
     conv = sub.lookup("_from_native")
     _memo(run, prog, model, prog.func("d42.utils._from_native.from_native"), rule="CONVERT-PURE",
@@ -414,6 +441,7 @@ def check(run: Run, prog: Program, model: Model, tier: str) -> None:
             else:
                 run.holds("PRE-VALIDATION", c, fsv.loc, f"rejects exactly ({xk} ? {prop}) in {sorted(want)}", nontrivial=True)
     _result_declarable(run, prog, model, tier)
+    _prevalidation_total(run, prog, model, tier)
     _repin(run, prog, model, tier)
     run.analysed["substitutor_paths"] = npaths
     run.floor("ONLY-SUBSTITUTIONERROR", 70)
@@ -425,6 +453,8 @@ def check(run: Run, prog: Program, model: Model, tier: str) -> None:
 
 SU = "d42/substitution/_substitutor.py"
 MUTANTS = [
+    {"name": "substitution pre-validation of dicts dereferences the `...` marker (seeded C12-K)", "rule": "PRE-VALIDATION-TOTAL",
+     "edits": [("d42/substitution/_validator.py", "            if is_ellipsis(key):\n                continue\n            if key in value:", "            if key in value:")]},
     {"name": "optional(...) keys of the value stored as literal keys again (fix 79361d3 reverted)", "rule": "RESULT-DECLARABLE",
      "edits": [(SU, "                if isinstance(key, optional):\n                    raise SubstitutionError(f\"Can't substitute {key!r}\")\n", "")]},
     {"name": "int substitution stores int(value) and the validator tells bools from ints (seeded C12-I)", "rule": "RE-PIN",
